@@ -1,4 +1,5 @@
 import SiaProofs.Lemmas.LedgerC01V2Val
+import SiaProofs.Lemmas.LedgerC01SolvFrame
 /-!
 # C01 helper lemmas, part 10: one v2 transaction conserves value
 -/
@@ -239,7 +240,8 @@ theorem v2txn_conserves {T} {ms ms' : Mid} {t : Txn2} {mw : Nat} {R : List (Kind
     (hnw : (t.sfOuts.map (·.2.1)).sum < u64Limit) (hsfb : sfTot ms < u64Limit)
     (hv : validateV2Transaction ms t mw = .ok ()) (ha : applyV2Transaction ms t = .ok ms') :
     Inv T ms' ∧ Fresh T ms' R ∧ ms'.base = ms.base ∧
-    Phi ms' + t.fee + t.forfeits = Phi ms + t.claims ms.pool ∧ sfTot ms' = sfTot ms ∧ ms.pool ≤ ms'.pool := by
+    Phi ms' + t.fee + t.forfeits = Phi ms + t.claims ms.pool ∧ sfTot ms' = sfTot ms ∧ ms.pool ≤ ms'.pool ∧
+    (CsOk ms → CsOk ms' ∧ Psi ms' + 10000 * t.claims ms.pool ≤ Psi ms + (ms'.pool - ms.pool) * sfTot ms) := by
   obtain ⟨hv1, hv2, hv3⟩ := validateV2Transaction_ok hv
   obtain ⟨hsc, hscn, hbal⟩ := validateV2Siacoins_ok hv1
   obtain ⟨hsf, hsfn, hsfbal⟩ := validateV2Siafunds_ok hv2
@@ -303,10 +305,10 @@ theorem v2txn_conserves {T} {ms ms' : Mid} {t : Txn2} {mw : Nat} {R : List (Kind
     · intro hm
       obtain ⟨q, hq, he⟩ := inF_scOut _ hm
       exact h0.not_fresh hF q hq he
-  obtain ⟨r3, F3, e3P, e3S, e3p⟩ := loop_sfIns2 t.sfIns ms2 ms3 _ hc2 r2.inv pSf2 hsfn F2 a3
+  obtain ⟨r3, F3, e3P, e3S, e3p, e3W⟩ := loop_sfIns2 t.sfIns ms2 ms3 _ hc2 r2.inv pSf2 hsfn F2 a3
   have hc3 : Ctx T ms3.base := by rw [r3.base]; exact hc2
   -- 4. siafund outputs
-  obtain ⟨r4, F4, e4P, e4S, e4p⟩ := loop_sfOuts t.sfOuts ms3 ms4 _ hc3 r3.inv F3 a4
+  obtain ⟨r4, F4, e4P, e4S, e4p, e4W⟩ := loop_sfOuts t.sfOuts ms3 ms4 _ hc3 r3.inv F3 a4
   have hc4 : Ctx T ms4.base := by rw [r4.base]; exact hc3
   -- 5. contract formations
   obtain ⟨r5, F5, e5P, e5S, e5p⟩ := loop_fcs2 t.fcs ms4 ms5 _ hc4 r4.inv hfcs F4 a5
@@ -345,7 +347,17 @@ theorem v2txn_conserves {T} {ms ms' : Mid} {t : Txn2} {mw : Nat} {R : List (Kind
   obtain ⟨f1, f2, f3, f4, f5, f6, f7, f8⟩ := finish2_fields ms7 t
   have hb7 : ms7.base = ms.base := by
     rw [r7.base, r6.base, r5.base, r4.base, r3.base, r2.base, r1.base]
-  refine ⟨r7.inv.scalars f1 f2 f3 f4 f5 f6 f7, ?_, f1.trans hb7, ?_, ?_, ?_⟩
+  -- siafund supply is unchanged after the siafund stages
+  have hS4 : sfTot ms4 = sfTot ms := by
+    have hin : (t.sfIns.map (·.parent.value)).sum < u64Limit := by
+      have : sfTot ms3 + (t.sfIns.map (·.parent.value)).sum = sfTot ms := by rw [← e1S, ← e2S]; exact e3S
+      omega
+    have h1 := Nat.mod_eq_of_lt hin
+    have h2 := Nat.mod_eq_of_lt hnw
+    have h3 : (t.sfIns.map (·.parent.value)).sum = (t.sfOuts.map (·.2.1)).sum := h1.symm.trans (hsfbal.trans h2)
+    have : sfTot ms3 + (t.sfIns.map (·.parent.value)).sum = sfTot ms := by rw [← e1S, ← e2S]; exact e3S
+    omega
+  refine ⟨r7.inv.scalars f1 f2 f3 f4 f5 f6 f7, ?_, f1.trans hb7, ?_, ?_, ?_, ?_⟩
   · exact F7.agree (agree_scalars f1 f2 f3 f4 f5 f6 f7 (fun _ => False)) (fun _ _ h => h)
   · rw [Phi_scalars f1 f4 f6 f7 f8]
     have hrs := ress_sums t.ress (fun r hr => by
@@ -358,15 +370,44 @@ theorem v2txn_conserves {T} {ms ms' : Mid} {t : Txn2} {mw : Nat} {R : List (Kind
     rw [e2p, e1p] at e3P
     clear hv hv1 hv2 hv3 a1 a2 a3 a4 a5 a6 a7 hF F1 F2 F3 F4 F5 F6 F7
     cur_omega
-  · rw [sfTot_congr f1 f5, e7S, e6S, e5S, e4S]
-    -- no uint64 wrap on either side
-    have hin : (t.sfIns.map (·.parent.value)).sum < u64Limit := by
-      have : sfTot ms3 + (t.sfIns.map (·.parent.value)).sum = sfTot ms := by rw [← e1S, ← e2S]; exact e3S
-      omega
-    rw [Nat.mod_eq_of_lt hin, Nat.mod_eq_of_lt hnw] at hsfbal
-    have : sfTot ms3 + (t.sfIns.map (·.parent.value)).sum = sfTot ms := by rw [← e1S, ← e2S]; exact e3S
-    omega
+  · rw [sfTot_congr f1 f5, e7S, e6S, e5S, hS4]
   · rw [f8, e7p, e6p, e5p, e4p, e3p, e2p, e1p]
     unfold Cur; omega
+  · intro hcs
+    -- stages 1-2 leave siafunds and the pool alone
+    have s12 : SfSame ms ms2 := (sfSame_scIns2 a1).trans (sfSame_scOuts a2)
+    have hp2 : ms2.pool = ms.pool := by rw [e2p, e1p]
+    obtain ⟨q2, c2⟩ := Psi_shift s12 0 (by rw [hp2]; rfl) hcs
+    -- stage 3: siafund inputs
+    obtain ⟨c3, q3⟩ := Psi_spend_stage ms.pool hp2 (e3p.trans hp2)
+      (fun w => (t.sfIns.map (fun i => w i.parent)).sum) e3W c2
+    -- stage 4: siafund outputs
+    have hp3 : ms3.pool = ms.pool := e3p.trans hp2
+    obtain ⟨c4, q4⟩ := Psi_create_stage ms.pool hp3 (e4p.trans hp3)
+      (t.sfOuts.map (fun x => (⟨x.1, x.2.1, x.2.2, ms3.pool, none⟩ : SfElem)))
+      (by intro o ho; obtain ⟨x, _, rfl⟩ := List.mem_map.mp ho; exact hp3)
+      (by intro w; rw [e4W w, List.map_map]; rfl) c3
+    -- stages 5-8: only the pool moves
+    obtain ⟨q5, c5⟩ := Psi_shift (sfSame_fcs2 a5) _ e5p c4
+    obtain ⟨q6, c6⟩ := Psi_shift (sfSame_revs2 a6) 0 (by rw [e6p]; rfl) c5
+    obtain ⟨q7, c7⟩ := Psi_shift (sfSame_ress2 a7) _ e7p c6
+    obtain ⟨q8, c8⟩ := Psi_shift (ms := ms7) (ms' := finish2 ms7 t) ⟨f5, f1⟩ 0 (by rw [f8]; rfl) c7
+    refine ⟨c8, ?_⟩
+    have hcl : 10000 * t.claims ms.pool ≤ (t.sfIns.map (fun i => psiW ms.pool i.parent)).sum := by
+      unfold Txn2.claims
+      apply sum_scaled_le
+      intro i _
+      exact claimVal_le_psiW _ _ _
+    have hpool : (finish2 ms7 t).pool - ms.pool =
+        (t.fcs.map (fun x => x.2.1.val / 25)).sum + (t.ress.map resTax).sum := by
+      rw [f8, e7p, e6p, e5p, e4p, e3p, e2p, e1p]; unfold Cur; omega
+    rw [hpool, q8, q7, q6, q5, q4]
+    have hS5 : sfTot ms5 = sfTot ms := e5S.trans hS4
+    have hS6 : sfTot ms6 = sfTot ms := e6S.trans hS5
+    have hS7 : sfTot ms7 = sfTot ms := e7S.trans hS6
+    rw [hS4, hS6, hS7, Nat.add_mul]
+    simp only [Nat.zero_mul, Nat.add_zero] at q2 ⊢
+    clear hv hv1 hv2 hv3 a1 a2 a3 a4 a5 a6 a7 hF F1 F2 F3 F4 F5 F6 F7 e3W e4W hbal hsfbal
+    omega
 
 end Sia.Ledger
